@@ -378,3 +378,40 @@ package proxy
 //@   loop 3 invariant s.idRing.size > 0 ==> s.idRing.startProxyID + int64(s.idRing.size) == s.nextProxyTaskID + 1
 //@   loop 3 invariant forall k int :: { m.Messages.ReplicationTasks[k] } 0 <= k && k < $i ==> m.Messages.ReplicationTasks[k].SourceTaskId == entry(s.nextProxyTaskID) + int64(k) + 1
 //@   loop 3 invariant (cap(originalIDs) == 0 || newSince(originalIDs)) && (cap(proxyIDs) == 0 || newSince(proxyIDs))
+
+// ---------------------------------------------------------------------------------------------
+// C03 (safety) and C01 (G3): acknowledgements the routing receiver sends to its source shard.
+// Ghost history: lastSent = last inclusive low watermark sent on this source stream.
+// handed(r, T, id): the receiver has handed a task with original id `id` to target shard T (grows only).
+// ---------------------------------------------------------------------------------------------
+
+//@ ghost proxyStreamReceiver.lastSent int64
+//@ ufunc handed(r *proxyStreamReceiver, t history.ClusterShardID, id int64) bool
+//@ func ackOf(q *adminservice.StreamWorkflowReplicationMessagesRequest) int64 =
+//@     cast(q.Attributes, "*adminservice.StreamWorkflowReplicationMessagesRequest_SyncReplicationState").SyncReplicationState.InclusiveLowWatermark
+
+// State guarded by ackMu. rely: the source's exclusive high watermark never decreases (A-temporal); the last sent
+// acknowledgement object is replaced only by sendAck itself. A-inc (one incarnation, the "no stream failures" part
+// of C01-C03): acknowledgements are processed only after a batch of this incarnation was received.
+//@ guards proxyStreamReceiver.ackMu: lastExclusiveHighOriginal, lastAckSendTime, lastSentAck
+//@   rely self.lastExclusiveHighOriginal >= old(self.lastExclusiveHighOriginal) && self.lastExclusiveHighOriginal > 0 && self.lastSentAck == old(self.lastSentAck)
+
+//@ extern quiet (*proxyStreamReceiver).buildReceiverDebugSnapshot
+
+// Every acknowledgement put on the source stream (aggregated or keep-alive).
+//@ extern (adminservice.AdminService_StreamWorkflowReplicationMessagesClient).Send@(*proxyStreamReceiver).sendAck(stream, q)
+//@   requires @monotone: ackOf(q) >= r.lastSent
+//@   ensures r.lastSent == ackOf(q)
+//@   assigns r.lastSent
+
+//@ contract (*proxyStreamReceiver).sendAck
+//@   props C03 C01
+//@   requires r.ackByTarget != nil && r.lastSentMin == r.lastSent && (r.lastSentAck != nil ==> ackOf(r.lastSentAck) == r.lastSent)
+//@   requires r.lastSentMin <= 0 || r.lastSentMin <= r.lastExclusiveHighOriginal
+//@   callpre Send.1: @bounded: lastExclusiveHighOriginal > 0 ==> ackOf($0) <= lastExclusiveHighOriginal
+//@   callpre Send.1: @min_over_reported_targets: forall t history.ClusterShardID :: { t in r.ackByTarget } t in r.ackByTarget ==> ackOf($0) <= r.ackByTarget[t]
+//@   callpre Send.1: @all_handed_targets_reported: forall t history.ClusterShardID, id int64 :: { handed(r, t, id) } handed(r, t, id) && id < ackOf($0) ==> t in r.ackByTarget
+//@   loop 1 invariant r.ackByTarget != nil && r.lastSentMin == r.lastSent && (r.lastSentAck != nil ==> ackOf(r.lastSentAck) == r.lastSent)
+//@   loop 1 invariant r.lastSentMin <= 0 || r.lastSentMin <= r.lastExclusiveHighOriginal
+//@   loop 2 invariant first <==> $n == 0
+//@   loop 2 invariant !first ==> (forall t history.ClusterShardID :: { t in $seen } t in $seen ==> min <= r.ackByTarget[t])
